@@ -126,3 +126,9 @@ Example C18_nonvacuous :
   let b := QT 0 6 1 true false false None NQBits None in
   code_ok (layer_acc w x 3 (Some b)) (dot [7; -7; 3] [127; -128; 5] * 2 ^ 0 + 31 * 2 ^ 4).
 Proof. cbn zeta. vm_compute. split; discriminate. Qed.
+
+(* the exponent range of a power-of-two type, as /repo computes it now (get_exp regenerated on this run), is the
+   get_exp of the model: min exponent from the exponent bits, max exponent capped by ceil(log2 max_value) *)
+Theorem C18_source_get_exp : forall t, gen_get_exp t = get_exp t.
+Proof. exact link_get_exp. Qed.
+Print Assumptions C18_source_get_exp.
